@@ -1518,6 +1518,14 @@ impl TypeChecker {
             }
         };
 
+        // The accept and reject types of a filtermap are what its own body
+        // makes of them. While they are still unknown, a caller gets
+        // variables of its own for them; these are made equal to the
+        // filtermap's types once those are final (see
+        // `force_filtermap_types`), so a caller cannot decide them.
+        let signature =
+            &self.filtermap_seen_from(ctx, *name, definition, signature, id);
+
         // Tell the lower stage about the kind of function this is.
         self.type_info.function_calls.insert(
             id,
@@ -1564,6 +1572,51 @@ impl TypeChecker {
 
         self.unify(&ctx.expected_type, &signature.return_type, id, None)?;
         Ok(diverges)
+    }
+
+    /// The signature of `name` for a call in `ctx`
+    ///
+    /// Only the signature of a filtermap that is called from another item
+    /// changes: sides of its verdict that are still unknown are replaced by
+    /// fresh variables, which are remembered together with the sides they
+    /// stand for.
+    fn filtermap_seen_from(
+        &mut self,
+        ctx: &Context,
+        name: ResolvedName,
+        definition: &FunctionDefinition,
+        signature: &Signature,
+        id: MetaId,
+    ) -> Signature {
+        let mut signature = signature.clone();
+        // Only a filtermap has a return type that is inferred: a verdict
+        // of two variables.
+        if name == ctx.item || *definition != FunctionDefinition::Roto {
+            return signature;
+        }
+        let Type::Name(type_name) = &signature.return_type else {
+            return signature;
+        };
+        if type_name.name.ident.as_str() != "Verdict" {
+            return signature;
+        }
+        let mut arguments = type_name.arguments.clone();
+        let mut changed = false;
+        for arg in &mut arguments {
+            if let Type::Var(_) = self.resolve_type(arg) {
+                let own = self.fresh_var();
+                self.filtermap_sides.push((own.clone(), arg.clone(), id));
+                *arg = own;
+                changed = true;
+            }
+        }
+        if changed {
+            signature.return_type = Type::Name(TypeName {
+                name: type_name.name,
+                arguments,
+            });
+        }
+        signature
     }
 
     fn method_call(
